@@ -420,7 +420,8 @@ def main(ctx):
         'be equal. Non-trivial = the program makes both routines run.')
     ctx.assumptions += [
         'RT runs use the default schedule (no deviation); thorough adds every '
-        'combination of <=2 late timers for programs without AppClock',
+        'combination of <=2 late timers for all programs without AppClock '
+        '(quick: <=1 late timer on a seed-selected 1/16 of them)',
         'events of different routines at the same logical instant are not '
         'ordered against each other (RT uses one thread per clock)',
         'every routine that draws random numbers seeds itself first']
@@ -483,13 +484,16 @@ def main(ctx):
     progenum.run(ctx, MODNAME, 'work_indep',
                  [{'progs': b} for b in chunked(rnd, 200)], mode='nrt',
                  bound='random independence')
-    if ctx.tier == 'thorough':
+    if True:
         noapp = [(i, p) for i, p in progs if 'a' not in p['clocks']
                  and not p.get('twoclock')]
-        sel = noapp[::7]
+        if ctx.tier == 'thorough':
+            sel, ml = noapp, 2
+        else:
+            sel, ml = noapp[core.pick_slice(ctx.seed, 16)::16], 1
         n = 0
         for res in ctx.map('rt', MODNAME, 'work_rt_dev',
-                           [{'progs': b, 'max_pre': 0, 'max_late': 2}
+                           [{'progs': b, 'max_pre': 0, 'max_late': ml}
                             for b in chunked(sel, 20)]):
             for idx, runs in res['obs']:
                 for choices, o in runs:
@@ -502,7 +506,8 @@ def main(ctx):
                             'detail': detail,
                             'size': 10 ** 6 + len(core.canon(byidx[idx]))})
         ctx.evaluations += n
-        ctx.bounds['rt under <=2 late timers (no preemption: preempting the '
-                   'main thread between its set-up calls changes the program)'] = {
+        ctx.bounds[f'rt under <={ml} late timers (no preemption: preempting '
+                   'the main thread between its set-up calls changes the '
+                   'program)'] = {
             'programs': len(sel), 'executions': n}
     ctx.extra['programs'] = len(progs)
